@@ -5,6 +5,8 @@ EXPLANATION = ("CrossHair symbolic execution (z3) of the real CRSEncoder/CRSDeco
 ASSUMPTIONS = [
     "zfec (compiled GF(2^8) Reed-Solomon) is not executed: 'any k distinct blocks decode back to the segment' is NOT decided by any obligation here; "
     "only the sizes and argument checks on tahoe's side of the zfec interface are",
+    "trim obligations: ideal erasure code = zfec.Decoder.decode returns the k primary blocks (the padded segment cut into k equal pieces); what is decided is "
+    "that the immutable and mutable downloaders then deliver exactly the segment's real bytes",
     "zfec's own contract is assumed: encode returns blocks of the same length as the k input pieces; decode returns k pieces of that length",
     "codec.decode only checks the COUNT of blocks and ids (== k each); distinctness/range of the ids and the number of pieces given to encode are left to zfec",
     "defer_to_thread runs synchronously",
@@ -18,6 +20,15 @@ OBLIGATIONS = [
              "share size == ceil(data_size/k); for data sizes that are multiples of k (all callers: segment size and padded tail) k blocks tile the data exactly; "
              "last_share_padding in [0, k)",
         outside="the Reed-Solomon reconstruction itself"),
+    chx("immutable_trim", "C36_h", "h_immutable_trim", timeout=T,
+        cases={"quick": [{"k": i, "_label": "k%d" % i} for i in (1, 3, 4)], "thorough": [{"k": i, "_label": "k%d" % i} for i in (1, 2, 3, 4, 5, 7)]},
+        desc="DownloadNode._decode_blocks (+_calculate_sizes, CRSDecoder.set_params/decode) under an ideal erasure code returning the k primary blocks: "
+             "the delivered segment has exactly the segment's real length (full segment, or size - segnum*segsize for the tail, also when the padding is "
+             "longer than one block) and byte p is byte p of the decoded data; unbounded size/segsize, k per case"),
+    chx("mutable_trim", "C36_h", "h_mutable_trim", timeout=T,
+        cases={"quick": [{"k": i, "_label": "k%d" % i} for i in (1, 3, 4)], "thorough": [{"k": i, "_label": "k%d" % i} for i in (1, 2, 3, 4, 5, 7)]},
+        desc="Retrieve._setup_encoding_parameters + _decode_blocks under the same ideal code: every non-tail segment is delivered at full segment size and the "
+             "tail at datalength %% segsize (or a full segment), also when the padded tail equals the segment size and both decoders are the same object"),
     chx("encode_checks", "C36_h", "h_encode_checks", timeout=T, bounds={"quick": {"n_max": 3}, "thorough": {"n_max": 6}},
         desc="CRSEncoder.encode: every piece must have exactly the block size (one piece off by any delta => AssertionError, zfec not called); more desired ids than N refused; "
              "default ids are 0..N-1; zfec.encode called once with the pieces and ids; (shares, ids) returned"),
